@@ -1,3 +1,4 @@
+import TapkeeVerif.Gen.IsomapSteps
 /-
 Model of `compute_shortest_distances_matrix` (include/tapkee/routines/isomap.hpp): both overloads
 (all sources / landmark sources), both priority-queue back-ends selected by the preprocessor
@@ -201,16 +202,13 @@ def allPairs (P : Problem K) (disc : Disc) (ch : Nat → Nat → Nat) :
   | none => .error .oob
   | some k => (List.range P.N).mapM fun s => row P disc k (ch s) s s
 
-/-- index of the frontier flag set before the loop of the landmark overload, for landmark position `r`
-    holding vertex `l`: the code writes `f[k] = true` with `k` the *position* -/
-def landmarkFlag (r _l : Nat) : Nat := r
-
-/-- second overload: `for (k = 0; k < N_landmarks; k++)` -/
+/-- second overload: `for (k = 0; k < N_landmarks; k++)`; the index of the frontier flag set before the relax
+    loop is the generated `Gen.Isomap.landmarkFlag` (as written: the landmark *position* `k`) -/
 def landmarkRows (P : Problem K) (disc : Disc) (ch : Nat → Nat → Nat) (lm : List Nat) :
     Except Err (List (Vector (Option K) P.N)) :=
   match P.k? with
   | none => .error .oob
-  | some k => lm.zipIdx.mapM fun (l, r) => row P disc k (ch r) l (landmarkFlag r l)
+  | some k => lm.zipIdx.mapM fun (l, r) => row P disc k (ch r) l (Gen.Isomap.landmarkFlag r l)
 
 end Loop
 
